@@ -13,7 +13,13 @@ statements : assignment (name, tuple of names), augmented assignment, if/elif/el
 expressions: int literals, names, + - * // % & | ^ ~ << >>, unary -, comparisons (chained),
              and / or / not, conditional expressions, min/max/abs, tuples, constant subscripts of
              tuple-typed parameters, `.start` / `.stop` of slice-typed values, `slice(a, b)`,
-             calls to other functions translated in the same unit, True/False, bool().
+             calls to other functions translated in the same unit, True/False, bool(),
+             `TABLE[i][j]` for a module-level constant table declared in spec["tables"] (mapped to
+             the lookup function of a dumped unit), integer parameter defaults declared in
+             spec["defaults"] (checked against the source; the Coq parameters stay explicit),
+             `NAME[key]` for a module-level constant dict declared in spec["lookups"] (mapped to the
+             lookup function of a dumped unit), `Enum(expr)` for an IntEnum class declared in
+             spec["casts"] (identity on the integer value).
 semantics  : Python int = Coq Z.  // is Z.div and % is Z.modulo (both floor, sign of divisor);
              & | ^ ~ are Z.land/lor/lxor/lnot (two's complement on negatives, as Python);
              << >> are Z.shiftl/Z.shiftr (for a negative count Python raises; the models only use
@@ -30,6 +36,9 @@ RESERVED = {"return", "end", "in", "at", "as", "fun", "match", "with", "if", "th
 
 class Unsupported(Exception):
     pass
+
+
+USES = {"list": False}
 
 
 def ident(n):
@@ -130,6 +139,26 @@ class Fn:
                 t = self.types.get(e.value.id, "Z")
                 if t.startswith("Z") and t[1:].isdigit() and 0 <= e.slice.value < int(t[1:]):
                     return ("%s_%d" % (ident(e.value.id), e.slice.value), "Z")
+            # TABLE[i][j] where TABLE is a module-level 2-D constant table declared in the spec
+            # (spec["tables"] = {python name: dict(coq=lookup function, elem=element type)}); the table
+            # itself and its lookup function come from a dumped unit named in unit["requires"].
+            tables = self.spec.get("tables", {})
+            if isinstance(e.value, ast.Subscript) and isinstance(e.value.value, ast.Name) \
+                    and e.value.value.id in tables and e.value.value.id not in self.types:
+                tb = tables[e.value.value.id]
+                return ("(%s %s %s)" % (tb["coq"], self.as_Z(e.value.slice), self.as_Z(e.slice)),
+                        tb["elem"])
+            # NAME[key] where NAME is a module-level constant dict declared in the spec
+            # (spec["lookups"] = {python name: dict(coq=lookup function, key=key type, elem=result type)});
+            # the lookup function comes from a dumped unit named in unit["requires"]; a missing key
+            # (Python KeyError) is the lookup function's business (e.g. an option result type).
+            lookups = self.spec.get("lookups", {})
+            if isinstance(e.value, ast.Name) and e.value.id in lookups and e.value.id not in self.types:
+                lk = lookups[e.value.id]
+                kv, kt = self.expr(e.slice)
+                if kt != lk["key"]:
+                    self.err(e, "lookup key of type %s, expected %s" % (kt, lk["key"]))
+                return ("(%s %s)" % (lk["coq"], kv), lk["elem"])
             self.err(e, "subscript")
         if isinstance(e, ast.Attribute):
             v, t = self.expr(e.value)
@@ -137,6 +166,8 @@ class Fn:
                 return ("(fst %s)" % v, "Z")
             if t == "slice" and e.attr == "stop":
                 return ("(snd %s)" % v, "Z")
+            if t == "km" and e.attr in ("key", "mask") and isinstance(e.value, ast.Name):
+                return ("%s_%s" % (ident(e.value.id), e.attr), "Z")
             self.err(e, "attribute")
         if isinstance(e, ast.Call) and isinstance(e.func, ast.Name) and not e.keywords:
             f = e.func.id
@@ -152,8 +183,38 @@ class Fn:
                 return (self.as_bool(e.args[0]), "bool")
             if f == "int" and len(e.args) == 1:
                 return (self.as_Z(e.args[0]), "Z")
+            if f == "sum" and len(e.args) == 1 and isinstance(e.args[0], ast.GeneratorExp):
+                g = e.args[0]
+                if len(g.generators) != 1:
+                    self.err(e, "sum over several generators")
+                c = g.generators[0]
+                it = c.iter
+                ok = (isinstance(c.target, ast.Name) and not c.is_async and len(c.ifs) <= 1
+                      and isinstance(it, ast.Call) and isinstance(it.func, ast.Name)
+                      and it.func.id == "range" and len(it.args) == 1 and not it.keywords
+                      and isinstance(it.args[0], ast.Constant) and isinstance(it.args[0].value, int)
+                      and not isinstance(it.args[0].value, bool) and it.args[0].value >= 0)
+                if not ok:
+                    self.err(e, "sum(...) outside the accepted pattern")
+                var = c.target.id
+                if var in self.types or var in self.spec["params"]:
+                    self.err(e, "sum variable shadows another name")
+                self.types[var] = "Z"
+                elt = self.as_Z(g.elt)
+                cond = self.as_bool(c.ifs[0]) if c.ifs else "true"
+                del self.types[var]
+                USES["list"] = True
+                return ("(fold_right Z.add 0 (map (fun %s : Z => if %s then %s else 0) "
+                        "(map Z.of_nat (seq 0 %d))))" % (ident(var), cond, elt, it.args[0].value), "Z")
             if f == "slice" and len(e.args) == 2:
                 return ("(%s, %s)" % (self.as_Z(e.args[0]), self.as_Z(e.args[1])), "slice")
+            # IntEnum constructors declared in spec["casts"] applied to an integer expression: the
+            # models represent a member by its integer value, so the call is the identity (the
+            # ValueError for a value that is no member is outside the translated subset: the caller
+            # of the translator must only declare a cast whose argument is always a member).
+            if f in self.spec.get("casts", []) and len(e.args) == 1 and f not in self.types \
+                    and f not in self.calls:
+                return (self.as_Z(e.args[0]), "Z")
             if f in self.calls:
                 cname, ptypes, rtype = self.calls[f]
                 if len(ptypes) != len(e.args):
@@ -314,11 +375,81 @@ class Fn:
                 pat, c, a, b, self.block(rest, tail))
         self.err(s, "statement")
 
+    def fragment(self, frag):
+        """Select the assignments to frag['targets'] standing before / inside / after the single
+        top-level `for` loop of the function and append `return (<frag['returns']>)`."""
+        body = list(self.node.body)
+        loops = [i for i, s in enumerate(body) if isinstance(s, (ast.For, ast.While))]
+        if len(loops) != 1 or not isinstance(body[loops[0]], ast.For) or body[loops[0]].orelse:
+            self.err(self.node, "fragment: the function must have exactly one top-level for loop")
+        k = loops[0]
+        where = frag["where"]
+        region = {"before_for": body[:k], "in_for": list(body[k].body), "after_for": body[k + 1:]}.get(where)
+        if region is None:
+            self.err(self.node, "fragment position %r" % where)
+        targets = set(frag["targets"])
+
+        def names_of(s):
+            if isinstance(s, ast.Assign):
+                out = []
+                for t in s.targets:
+                    if isinstance(t, ast.Name):
+                        out.append(t.id)
+                    elif isinstance(t, ast.Tuple):
+                        out += [x.id for x in t.elts if isinstance(x, ast.Name)]
+                return out
+            if isinstance(s, ast.AugAssign) and isinstance(s.target, ast.Name):
+                return [s.target.id]
+            return []
+        sel = []
+        for s in region:
+            ns = names_of(s)
+            if any(n in targets for n in ns):
+                if not all(n in targets for n in ns):
+                    self.err(s, "fragment: statement assigns listed and unlisted names")
+                sel.append(s)
+            elif isinstance(s, (ast.If, ast.For, ast.While, ast.With, ast.Try)):
+                for sub in ast.walk(s):
+                    if any(n in targets for n in names_of(sub)):
+                        self.err(s, "fragment: a listed name is assigned under nested control flow")
+        if "count" in frag and len(sel) != frag["count"]:
+            self.err(self.node, "fragment: %d statements assign %r, expected %d"
+                     % (len(sel), sorted(targets), frag["count"]))
+        if not sel:
+            self.err(self.node, "fragment: nothing selected")
+        rets = frag["returns"]
+        val = (ast.Tuple(elts=[ast.Name(id=n, ctx=ast.Load()) for n in rets], ctx=ast.Load())
+               if len(rets) > 1 else ast.Name(id=rets[0], ctx=ast.Load()))
+        ret = ast.Return(value=val)
+        ast.copy_location(ret, sel[-1])
+        ast.fix_missing_locations(ret)
+        return sel + [ret]
+
     def translate(self):
         a = self.node.args
-        if a.vararg or a.kwarg or a.kwonlyargs or a.defaults or a.posonlyargs:
+        if a.vararg or a.kwarg or a.kwonlyargs or a.posonlyargs:
             self.err(self.node, "parameter list")
         names = [x.arg for x in a.args]
+        if a.defaults:
+            # default values are accepted only when the spec states them (spec["defaults"] =
+            # {parameter: integer}); the Coq definition takes every parameter explicitly and the
+            # model / harness supplies the stated default where the caller omits the argument.
+            got = {}
+            for n, dflt in zip(names[len(names) - len(a.defaults):], a.defaults):
+                if not (isinstance(dflt, ast.Constant) and type(dflt.value) is int):
+                    self.err(self.node, "default value of parameter " + n)
+                got[n] = dflt.value
+            if got != self.spec.get("defaults"):
+                raise Unsupported("%s: parameter defaults are %r, the model expects %r"
+                                  % (self.spec["name"], got, self.spec.get("defaults")))
+        # spec["ignore_params"]: leading `cls` of a classmethod etc.; accepted only when the body
+        # never mentions the name (the Coq definition does not take it)
+        for ig in self.spec.get("ignore_params", []):
+            if ig in names:
+                for sub in ast.walk(ast.Module(body=list(self.node.body), type_ignores=[])):
+                    if isinstance(sub, ast.Name) and sub.id == ig:
+                        self.err(sub, "use of ignored parameter " + ig)
+                names.remove(ig)
         want = list(self.spec["params"].keys())
         if names != want:
             raise Unsupported("%s: parameters are %r, the model expects %r"
@@ -333,6 +464,8 @@ class Fn:
                 binders.append("(%s : bool)" % ident(n))
             elif t == "slice":
                 binders.append("(%s : Z * Z)" % ident(n))
+            elif t == "km":
+                binders.append("(%s_key : Z) (%s_mask : Z)" % (ident(n), ident(n)))
             elif t.startswith("Z") and t[1:].isdigit():
                 k = int(t[1:])
                 binders.append("(%s : %s)" % (ident(n), " * ".join(["Z"] * k)))
@@ -340,7 +473,7 @@ class Fn:
                     ", ".join("%s_%d" % (ident(n), i) for i in range(k)), ident(n)))
             else:
                 raise Unsupported("bad parameter type " + t)
-        body = self.block(list(self.node.body), None)
+        body = self.block(stmts, None)
         return "Definition %s %s :=\n  %s\n  %s.\n" % (
             self.spec["coq"], " ".join(binders), "\n  ".join(pre), body)
 
@@ -367,7 +500,9 @@ def translate_unit(repo, unit):
     """unit: dict(out=path of .v, header=str, functions=[spec...]); spec has 'file'.
     Returns the text of the generated file."""
     out = ["(* GENERATED by tools/py2v.py from the current /repo sources -- do not edit. *)",
-           "From Coq Require Import ZArith Bool.", "Open Scope Z_scope.", ""]
+           "From Coq Require Import ZArith Bool."]
+    out += ["Require Import %s." % r for r in unit.get("requires", [])]
+    out += ["Open Scope Z_scope.", ""]
     calls = {}
     for spec in unit["functions"]:
         with open(repo + "/" + spec["file"]) as f:
@@ -378,6 +513,8 @@ def translate_unit(repo, unit):
         out.append(text)
         calls[spec["name"].split(".")[-1]] = (spec["coq"], list(spec["params"].values()),
                                               spec["ret"])
+    if USES["list"]:
+        out[1] = "From Coq Require Import ZArith Bool List."
     return "\n".join(out)
 
 
